@@ -21,11 +21,11 @@ ocaml: coq
 REPO ?= /repo
 tie: coq
 	rm -rf coq/generated && mkdir -p coq/generated/gen coq/generated/tie
-	for u in lookup_enc:LookupEnc lookup_dec:LookupDec hint:Hint options:Options encode:Encode flows:Flows streams:Streams decode:Decode generic_sink:GenericSink generic_parse:GenericParse generic_serialize:GenericSerialize; do \
+	for u in lookup_enc:LookupEnc lookup_dec:LookupDec hint:Hint options:Options encode:Encode flows:Flows streams:Streams decode:Decode generic_sink:GenericSink generic_parse:GenericParse generic_serialize:GenericSerialize rdflib_serialize:RdflibSerialize; do \
 	  python3 translate/py2v.py $(REPO) $${u%%:*} > coq/generated/gen/$${u##*:}Gen.v || exit 1; done
-	cd coq && for u in LookupEnc LookupDec Hint Options Encode Flows Streams Decode GenericSink GenericParse GenericSerialize; do \
+	cd coq && for u in LookupEnc LookupDec Hint Options Encode Flows Streams Decode GenericSink GenericParse GenericSerialize RdflibSerialize; do \
 	  coqc -Q tie PJ.Tie -Q generated/tie PJ.Tie -Q generated/gen PJ.Gen generated/gen/$${u}Gen.v || exit 1; done
-	cd coq && for t in LookupEncTie LookupDecTie HintTie OptionsTie EncodeTie EncodeStmtTie FlowsTie StreamsTie DecodeTie DecoderBase DecoderTie GenericTerms GenericParseTie GenericSerializeTie GenericRoundTrip GenericDriversTie GenericEndToEnd DecoderSource C05Source SourceProps StreamsSource TxRun; do \
+	cd coq && for t in LookupEncTie LookupDecTie HintTie OptionsTie EncodeTie EncodeStmtTie FlowsTie StreamsTie DecodeTie DecoderBase DecoderTie StmtLayout GenericTerms GenericParseTie GenericSerializeTie RdflibSerializeTie GenericRoundTrip GenericDriversTie GenericEndToEnd DecoderSource C05Source SourceProps StreamsSource TxRun TxRunRdflib; do \
 	  coqc -Q model PJ.Model -Q proofs PJ.Proofs -Q tie PJ.Tie -Q generated/tie PJ.Tie -Q generated/gen PJ.Gen -o generated/tie/$$t.vo tie/$$t.v || exit 1; done
 
 clean:
